@@ -1,6 +1,7 @@
 import OdxVerif.Proofs.AtomicRT
 import OdxVerif.Spec.NumRepr
 import OdxVerif.Proofs.FlatBits
+import OdxVerif.Proofs.Flatten
 /-! # C02 — encoded PDUs are bit-exact with the ODX wire format
     Tier proved here: **atomic objects** (every `A_INT32` encoding, every bit length 1…64, bit position,
     byte order, arbitrary surrounding message). The composite tiers (positions relative to the enclosing
@@ -151,6 +152,96 @@ theorem C02_bit_exact_flat (ovs : List (Obj × IVal)) (hlen : ovs.length ≤ 400
     rw [this, o.raw_eq_spec hoo v hr]
   · intro a ha
     have := flat_undescribed ovs s0 a (by rw [ho, hc]; exact ha)
+    rw [hpdu, hm] at this
+    rw [this]
+    simp [getBit]
+
+/-- membership in the flattening keeps the leaf's well-formedness and value range -/
+theorem Obj.at_ok (o : Obj) (p : Nat) (h : o.ok) : (o.at p).ok := h
+theorem Obj.at_inRange (o : Obj) (p : Nat) (v : IVal) (h : o.inRange v) : (o.at p).inRange v := h
+
+mutual
+theorem Tree.flat_ok : (t : Tree) → t.okAll → ∀ (org cur : Nat), ∀ ov ∈ (t.flat org cur).1, ov.1.ok ∧ ov.1.inRange ov.2
+  | .int o v, h, org, cur => by
+    simp only [Tree.okAll] at h
+    intro ov hov
+    simp only [Tree.flat, List.mem_singleton] at hov
+    subst hov
+    exact ⟨Obj.at_ok o _ h.1, Obj.at_inRange o _ v h.2⟩
+  | .const o v, h, org, cur => by
+    simp only [Tree.okAll] at h
+    intro ov hov
+    simp only [Tree.flat, List.mem_singleton] at hov
+    subst hov
+    exact ⟨Obj.at_ok o _ h.1, Obj.at_inRange o _ v h.2⟩
+  | .struct _ bp kids, h, org, cur => by
+    simp only [Tree.okAll] at h
+    simp only [Tree.flat]
+    exact Trees.flat_ok kids h _ _
+theorem Trees.flat_ok : (ts : List Tree) → Trees.okAll ts → ∀ (org cur : Nat), ∀ ov ∈ (Trees.flat ts org cur).1, ov.1.ok ∧ ov.1.inRange ov.2
+  | [], _, _, _ => by intro ov hov; simp [Trees.flat] at hov
+  | t :: ts, h, org, cur => by
+    simp only [Trees.okAll] at h
+    intro ov hov
+    simp only [Trees.flat, List.mem_append] at hov
+    rcases hov with hov | hov
+    · exact Tree.flat_ok t h.1 org cur ov hov
+    · exact Trees.flat_ok ts h.2 org _ ov hov
+end
+
+mutual
+theorem Tree.flat_explicit : (t : Tree) → ∀ (org cur : Nat), ∀ ov ∈ (t.flat org cur).1, ov.1.bytePos.isSome = true
+  | .int o v, org, cur => by intro ov h; simp only [Tree.flat, List.mem_singleton] at h; subst h; rfl
+  | .const o v, org, cur => by intro ov h; simp only [Tree.flat, List.mem_singleton] at h; subst h; rfl
+  | .struct _ bp kids, org, cur => by simp only [Tree.flat]; exact Trees.flat_explicit kids _ _
+theorem Trees.flat_explicit : (ts : List Tree) → ∀ (org cur : Nat), ∀ ov ∈ (Trees.flat ts org cur).1, ov.1.bytePos.isSome = true
+  | [], _, _ => by intro ov hov; simp [Trees.flat] at hov
+  | t :: ts, org, cur => by
+    intro ov hov
+    simp only [Trees.flat, List.mem_append] at hov
+    rcases hov with hov | hov
+    · exact Tree.flat_explicit t org cur ov hov
+    · exact Trees.flat_explicit ts org _ ov hov
+end
+
+/-- **Bit-exact PDUs, nested-structure tier.** `Trees.flat ts 0 0` lists the leaves of a request/response built
+    from VALUE / CODED-CONST parameters and arbitrarily nested structures, each with the absolute byte position
+    the ODX positional rule gives it (BYTE-POSITION relative to the first byte of the *enclosing structure*, or
+    the byte behind the previous sibling — `Tree.flat`). If `Request.encode` returns a PDU without an overlap
+    warning then (1) bit `j` of the ODX representation of every leaf's value sits at that leaf's absolute position,
+    bit position and byte order, and (2) every bit that no leaf claims is zero. -/
+theorem C02_bit_exact_struct (ts : List Tree) (hneed : Trees.need ts + 2 ≤ modelFuel) (hok : Trees.okAll ts)
+    (hn : Trees.namesOk ts) (trig : Option Bytes) (pdu : Bytes)
+    (henc : encodeMessage none (Trees.toParams ts) (.dict (Trees.pair ts).val) trig true = .ok (pdu, 0)) :
+    (∀ pre o v post, (Trees.flat ts 0 0).1 = pre ++ (o, v) :: post → ∀ j, j < o.bl →
+        getBit pdu (absBit (o.pos 0 0) o.k o.hl (j + o.bp)) = (o.specRepr v).testBit j) ∧
+    (∀ a, (∀ pre o v post, (Trees.flat ts 0 0).1 = pre ++ (o, v) :: post → ¬ o.claims (o.pos 0 0) a) →
+        getBit pdu a = false) := by
+  obtain ⟨s0, hm, _, hw, hc, ho, hrun⟩ := encodeMessage_tree_flat ts hneed hok hn trig
+  rw [hrun] at henc
+  simp only [Except.ok.injEq, Prod.mk.injEq] at henc
+  obtain ⟨hpdu, hwarn⟩ := henc
+  -- every flattened leaf has an explicit position: its position does not depend on the cursor
+  have hexp : ∀ ov ∈ (Trees.flat ts 0 0).1, ∀ c c', ov.1.pos 0 c = ov.1.pos 0 c' := by
+    intro ov hov c c'
+    have := Trees.flat_explicit ts 0 0 ov hov
+    unfold Obj.pos
+    cases hb : ov.1.bytePos with
+    | none => rw [hb] at this; cases this
+    | some b => rfl
+  constructor
+  · intro pre o v post heq j hj
+    have hmem : (o, v) ∈ (Trees.flat ts 0 0).1 := by rw [heq]; simp
+    obtain ⟨hoo, hr⟩ := Trees.flat_ok ts hok 0 0 (o, v) hmem
+    have := flat_described pre post o v s0 (by rw [← heq, hwarn, hw]) j hj
+    rw [← heq, hpdu, ho] at this
+    rw [hexp (o, v) hmem 0 (cursorAfter 0 (pre.map (·.1)) s0.cursorByte), this, o.raw_eq_spec hoo v hr]
+  · intro a ha
+    have := flat_undescribed (Trees.flat ts 0 0).1 s0 a (by
+      intro pre o v post heq
+      have hmem : (o, v) ∈ (Trees.flat ts 0 0).1 := by rw [heq]; simp
+      rw [ho, ← hexp (o, v) hmem 0]
+      exact ha pre o v post heq)
     rw [hpdu, hm] at this
     rw [this]
     simp [getBit]
